@@ -234,8 +234,11 @@ def linkMapNames (ms : List DLinkMap) : Bytes := ms.flatMap (fun m => mdStr m.na
 def dsoPrefix (pos : Nat) (d : DDso) : Bytes :=
   if d.maps.isEmpty then [] else linkMapRecs (pos + 20 * d.maps.length) d.maps ++ linkMapNames d.maps
 
+/-- `u32::MAX`: the link-map offset stored when there is no loaded object -/
+def U32_MAX : Nat := 2 ^ 32 - 1
+
 def serDsoDebug (pos : Nat) (d : DDso) : Bytes :=
-  le 4 d.version ++ le 4 (if d.maps.isEmpty then 2 ^ 32 - 1 else pos) ++ le 4 d.maps.length ++
+  le 4 d.version ++ le 4 (if d.maps.isEmpty then U32_MAX else pos) ++ le 4 d.maps.length ++
   le 8 d.brk ++ le 8 d.ldbase ++ le 8 d.dynamic
 
 -- assembly -----------------------------------------------------------------------------------------
